@@ -72,6 +72,9 @@ type inode struct {
 	data   []byte
 	ddata  []byte  // content as of the last fsync
 	writes []write // since the last fsync
+	// a failed fsync dropped written data from the write-back set: the page cache (data) and what can
+	// ever reach the disk (ddata + writes) have diverged for good
+	lostWrites bool
 	// directories
 	ents    map[string]*inode
 	dents   map[string]*inode // entries as of the last fsync
@@ -586,6 +589,15 @@ func (f *File) Sync() error {
 		rate, errs = d.F.DirSync, []syscall.Errno{syscall.EIO, syscall.EINVAL}
 	}
 	if err := d.step("sync", f.name, rate, true, errs...); err != nil {
+		if !f.n.dir {
+			// Linux reports a write-back error once and marks the pages clean: the data written so far
+			// stays visible in the page cache but is no longer scheduled for the disk; a later fsync
+			// of the same file succeeds without it
+			d.mu.Lock()
+			f.n.writes = nil
+			f.n.lostWrites = true
+			d.mu.Unlock()
+		}
 		return err
 	}
 	d.mu.Lock()
@@ -598,10 +610,31 @@ func (f *File) Sync() error {
 		}
 		n.pending = nil
 	} else {
-		n.ddata = append([]byte(nil), n.data...)
+		// what reaches the disk: the durable content plus the writes still scheduled for write-back
+		n.ddata = applyWrites(n.ddata, n.writes)
 		n.writes = nil
 	}
 	return nil
+}
+
+func applyWrites(base []byte, ws []write) []byte {
+	out := append([]byte(nil), base...)
+	for _, w := range ws {
+		if w.data == nil {
+			if int64(len(out)) < w.off {
+				out = append(out, make([]byte, w.off-int64(len(out)))...)
+			} else {
+				out = out[:w.off]
+			}
+			continue
+		}
+		end := w.off + int64(len(w.data))
+		if int64(len(out)) < end {
+			out = append(out, make([]byte, end-int64(len(out)))...)
+		}
+		copy(out[w.off:end], w.data)
+	}
+	return out
 }
 
 func (f *File) Close() error {
@@ -765,7 +798,7 @@ func persistData(n *inode, t *simrt.Tape, mode int, path string, notes *[]string
 	base := filepath.Base(path)
 	switch mode {
 	case 0:
-		return append([]byte(nil), n.data...)
+		return applyWrites(n.ddata, n.writes)
 	case 1:
 		*notes = append(*notes, "data of "+base+" as of last fsync")
 		return append([]byte(nil), n.ddata...)
